@@ -182,6 +182,9 @@ package datastore
 //@             emitted(ntrace()-1) == TimerStart(tm.transaction.timer))
 //@   ensures error_frees_slot [C06 C07]: r1 != nil ==> tm.transaction == old(tm.transaction)
 //@   ensures dry_run_sends_nothing [C03]: dryRun ==> ntrace() == n0
+// a request refused as a whole (the same intent twice) has no effect: it is refused before the replace intent runs
+//@   internal refused_request_has_no_effect [C03]: called(AddTransactionIntents) && callres(AddTransactionIntents, 0) != nil ==> r1 != nil && ntrace() == n0 && !called(replaceIntent)
+//@   internal nothing_runs_before_the_request_is_accepted [C03]: called(replaceIntent) || called(lowlevelTransactionSet) ==> called(AddTransactionIntents) && callres(AddTransactionIntents, 0) == nil
 //@   loop 0 invariant tm.transaction == old(tm.transaction) && ntrace() == n0
 
 // ---------------------------------------------------------------------------
